@@ -20,6 +20,12 @@ CHECKS = {
  "C07": dict(technique="static analysis: symbolic blob terms (via paseto-core generics, DH/RSA-KEM algebra) compared with specification terms and between siblings; T-FIXW over FFI big-integer encoders; unwrap Err-exit whitelist",
    text="For 6 backends x {PIE, PBKW, PKE}: the blob term equals the PASERK specification term (domain bytes, KDF identities/split points, cipher incl. 128-bit CTR counter, MAC transcript order, parameter field layout), siblings (v3/aws-lc, v4/sodium, v1/v3, v2/v4) agree up to listed guarded deltas, every BN_bn2bin writes right-aligned into a fixed-width buffer, unwrap functions reject only on conditions the format states.",
    ref="DESIGN.md §4 C07"),
+ "C09": dict(technique="static analysis: Display/FromStr summary mirroring, whole-remainder dataflow rule, dominator rule over the base64 decoder CFG, symbolic extraction of alphabet/bit-layout constants compared with RFC 4648 §5 by arithmetic, serde impl census",
+   text="The six text forms are mirror images (same constants in the same order, same stored field, whole remainder decoded, '.'+footer iff non-empty); base64 decode accumulates every verdict unconditionally before the single err==0 test, validates the last block on the Ok path, sizes output by decoded_len; the alphabet and 6-bit packing constants extracted from the code equal RFC 4648 §5; serde uses exactly the text form; key ids must be 33 bytes. Construction-level: a different coding style fails closed.",
+   ref="DESIGN.md §4 C09"),
+ "C10": dict(technique="static analysis: exhaustive census of evaluated associated consts and impls, prefix-freeness computation, exact-length closure analysis of every HasKey::decode path, shared header-coverage rules",
+   text="Finite and exhaustive: version/paserk header consts per backend, prefix-freeness of all 52 parse prefixes across versions and kinds, every key decoder closed by an exact-length test of the kind's width (and RSA modulus size for v1), kind/version header inside every authenticated transcript, every FromStr strips its own trait constants.",
+   ref="DESIGN.md §4 C10"),
  "C11": dict(technique="static analysis: decision-table extraction from enumerated MIR paths, exhaustive comparison with specification predicates over semantic atoms; structural path-shape rules for combinators",
    text="Each built-in leaf validator's branch structure is mapped to semantic atoms (claim presence, 3-valued timestamp order incl. the leeway-shifted bounds, string equality) and compared with the specified predicate for every assignment of the atoms (finite, exhaustive); combinators (and_then, slices/Vec, Box/Rc/Arc, map, NoValidation) are checked on their path shapes; the unseal gate releases exactly the validated message on the validator's success edge. jiff's arithmetic/ordering is trusted.",
    ref="DESIGN.md §4 C11"),
